@@ -1,9 +1,749 @@
 (* Indexer_proofs.v — invariants and proofs for Model/Indexer.v *)
-From Coq Require Import List NArith Bool Lia.
+From Coq Require Import List NArith Bool Lia Sorted PeanoNat.
 From Coq Require Import ZifyN ZifyNat ZifyBool.
 Import ListNotations.
 From HV Require Import Lib.AssocN Model.Indexer.
 Local Open Scope N_scope.
 
-Lemma init_latest W : get_latest (init W) = (1, None).
+(* ------------------------------------------------------------------ one chain of accepted blocks *)
+Record chain_wf (U : list eblock) : Prop := mkWf {
+  wf_h : forall b1 b2, In b1 U -> In b2 U -> eh b1 = eh b2 -> b1 = b2;
+  wf_id : forall b1 b2, In b1 U -> In b2 U -> eid b1 = eid b2 -> b1 = b2;
+  wf_tx : forall b1 b2 i1 i2 t, In b1 U -> In b2 U ->
+            nth_error (etxs b1) i1 = Some t -> nth_error (etxs b2) i2 = Some t -> b1 = b2 /\ i1 = i2;
+  wf_res : forall b, In b U -> length (eres b) = length (etxs b)
+}.
+
+Lemma wf_nodup U b : chain_wf U -> In b U -> NoDup (etxs b).
+Proof.
+  intros Hwf Hb. apply NoDup_nth_error. intros i j Hi Hij.
+  destruct (nth_error (etxs b) i) as [t|] eqn:Ei; [|apply nth_error_None in Ei; lia].
+  symmetry in Hij. destruct (wf_tx U Hwf b b i j t Hb Hb Ei Hij) as [_ H]. exact H.
+Qed.
+
+Lemma opt_ext {A} (a b : option A) : (forall x, a = Some x <-> b = Some x) -> a = b.
+Proof.
+  intros H. destruct a as [x|], b as [y|]; try reflexivity.
+  - symmetry. apply H. reflexivity.
+  - symmetry. apply H. reflexivity.
+  - apply H. reflexivity.
+Qed.
+
+(* ------------------------------------------------------------------ cache coherence *)
+Record Coh (U : list eblock) (s : ist) : Prop := mkCoh {
+  c_key : forall h b, aget h (i_h2b s) = Some b -> eh b = h /\ In b U;
+  c_id : forall i h, aget i (i_id2h s) = Some h <-> exists b, aget h (i_h2b s) = Some b /\ eid b = i;
+  c_tx : forall t h idx, aget t (i_tx s) = Some (h, idx) <->
+           exists b, aget h (i_h2b s) = Some b /\ nth_error (etxs b) (N.to_nat idx) = Some t
+}.
+
+Lemma aget_fold_adel {V} (l : list N) : forall (m : amap V) t,
+  aget t (fold_left (fun m t => adel t m) l m) = if memN t l then None else aget t m.
+Proof.
+  induction l as [|x r IH]; intros m t; cbn [fold_left memN]; [reflexivity|].
+  rewrite IH, aget_adel. rewrite (N.eqb_sym t x). destruct (memN t r); destruct (x =? t); reflexivity.
+Qed.
+
+Lemma nth_error_memN l i t : nth_error l i = Some t -> memN t l = true.
+Proof. intros H. apply memN_In. eapply nth_error_In. exact H. Qed.
+
+Lemma memN_false_nth l t i : memN t l = false -> nth_error l i = Some t -> False.
+Proof. intros H1 H2. apply nth_error_memN in H2. congruence. Qed.
+
+(* evictBlockFromCache *)
+Lemma evict_spec U s h : chain_wf U -> Coh U s ->
+  Coh U (evict s h) /\
+  (forall k, aget k (i_h2b (evict s h)) = if k =? h then None else aget k (i_h2b s)) /\
+  i_last (evict s h) = i_last s /\ i_W (evict s h) = i_W s /\ i_db (evict s h) = i_db s.
+Proof.
+  intros Hwf [Hk Hi Ht]. unfold evict. destruct (aget h (i_h2b s)) as [eb|] eqn:E.
+  - destruct (Hk h eb E) as [Heh HeU]. cbn [set_caches i_h2b i_last i_W i_db i_id2h i_tx].
+    assert (Hh2b : forall k, aget k (adel (eh eb) (i_h2b s)) = if k =? h then None else aget k (i_h2b s)).
+    { intros k. rewrite aget_adel, Heh, (N.eqb_sym h k). reflexivity. }
+    split; [|auto]. constructor; cbn [set_caches i_h2b i_id2h i_tx].
+    + intros k b. rewrite Hh2b. destruct (k =? h); [discriminate | apply Hk].
+    + intros i k. rewrite aget_adel, Hh2b. destruct (eid eb =? i) eqn:Ei.
+      * apply N.eqb_eq in Ei. split; [discriminate|]. intros [b [Hb Hbi]]. exfalso.
+        destruct (k =? h) eqn:Ekh; [discriminate|]. destruct (Hk k b Hb) as [Hbk HbU].
+        assert (b = eb) by (apply (wf_id U Hwf); auto; congruence). subst b. apply N.eqb_neq in Ekh. congruence.
+      * apply N.eqb_neq in Ei. rewrite Hi. split.
+        -- intros [b [Hb Hbi]]. exists b. split; [|exact Hbi]. destruct (k =? h) eqn:Ekh; [|exact Hb].
+           apply N.eqb_eq in Ekh. subst k. congruence.
+        -- intros [b [Hb Hbi]]. exists b. split; [|exact Hbi]. destruct (k =? h); [discriminate | exact Hb].
+    + intros t k idx. rewrite aget_fold_adel, Hh2b. destruct (memN t (etxs eb)) eqn:Em.
+      * split; [discriminate|]. intros [b [Hb Hbt]]. exfalso.
+        destruct (k =? h) eqn:Ekh; [discriminate|]. destruct (Hk k b Hb) as [Hbk HbU].
+        apply memN_In, In_nth_error in Em. destruct Em as [j Hj].
+        destruct (wf_tx U Hwf b eb _ _ t HbU HeU Hbt Hj) as [-> _]. apply N.eqb_neq in Ekh. congruence.
+      * rewrite Ht. split.
+        -- intros [b [Hb Hbt]]. exists b. split; [|exact Hbt]. destruct (k =? h) eqn:Ekh; [|exact Hb].
+           apply N.eqb_eq in Ekh. subst k. exfalso. assert (b = eb) by congruence. subst b.
+           eapply memN_false_nth; eauto.
+        -- intros [b [Hb Hbt]]. exists b. split; [|exact Hbt]. destruct (k =? h); [discriminate | exact Hb].
+  - split; [constructor; assumption|]. split; [|auto].
+    intros k. destruct (k =? h) eqn:Ekh; [|reflexivity]. apply N.eqb_eq in Ekh. subst k. exact E.
+Qed.
+
+Lemma evict_many_spec U l : forall s, chain_wf U -> Coh U s ->
+  Coh U (fold_left evict l s) /\
+  (forall k, aget k (i_h2b (fold_left evict l s)) = if memN k l then None else aget k (i_h2b s)) /\
+  i_last (fold_left evict l s) = i_last s /\ i_W (fold_left evict l s) = i_W s /\ i_db (fold_left evict l s) = i_db s.
+Proof.
+  induction l as [|x r IH]; intros s Hwf Hc; cbn [fold_left memN]; [auto|].
+  destruct (evict_spec U s x Hwf Hc) as [Hc1 [Hh1 [Hl1 [HW1 Hd1]]]].
+  destruct (IH (evict s x) Hwf Hc1) as [Hc2 [Hh2 [Hl2 [HW2 Hd2]]]].
+  split; [exact Hc2|]. split; [|split; [congruence | split; congruence]].
+  intros k. rewrite Hh2, Hh1. destruct (k =? x); destruct (memN k r); reflexivity.
+Qed.
+
+(* the three puts + lastHeight *)
+Definition pure_insert (s : ist) (b : eblock) : ist :=
+  set_caches s (aput (eid b) (eh b) (i_id2h s)) (aput (eh b) b (i_h2b s))
+             (put_txs (eh b) 0 (etxs b) (i_tx s)) (Some (eh b)).
+
+Lemma put_txs_notin h l : forall i0 m t, ~ In t l -> aget t (put_txs h i0 l m) = aget t m.
+Proof.
+  induction l as [|x r IH]; intros i0 m t Hni; cbn [put_txs]; [reflexivity|].
+  rewrite IH by (intros H; apply Hni; right; exact H).
+  apply aget_aput_ne. intros ->. apply Hni. left. reflexivity.
+Qed.
+
+Lemma put_txs_in h l : forall i0 m t p, NoDup l -> nth_error l p = Some t ->
+  aget t (put_txs h i0 l m) = Some (h, i0 + N.of_nat p).
+Proof.
+  induction l as [|x r IH]; intros i0 m t p Hnd Hp; [destruct p; discriminate|].
+  inversion Hnd as [|y l' Hni Hnd']; subst. cbn [put_txs]. destruct p as [|p]; cbn [nth_error] in Hp.
+  - injection Hp as ->. rewrite put_txs_notin by exact Hni. rewrite aget_aput_eq. f_equal. f_equal. lia.
+  - rewrite (IH _ _ t p Hnd' Hp). f_equal. f_equal. lia.
+Qed.
+
+Lemma pure_insert_coh U s b : chain_wf U -> In b U -> Coh U s -> Coh U (pure_insert s b).
+Proof.
+  intros Hwf HbU [Hk Hi Ht]. constructor; cbn [pure_insert set_caches i_h2b i_id2h i_tx].
+  - intros k x. rewrite aget_aput. destruct (k =? eh b) eqn:E.
+    + apply N.eqb_eq in E. intros H. injection H as <-. auto.
+    + apply Hk.
+  - intros i k. rewrite !aget_aput. destruct (i =? eid b) eqn:Ei.
+    + apply N.eqb_eq in Ei. subst i. split.
+      * intros H. injection H as <-. exists b. rewrite N.eqb_refl. auto.
+      * intros [x [Hx Hxi]]. destruct (k =? eh b) eqn:Ek; [apply N.eqb_eq in Ek; congruence|]. exfalso.
+        destruct (Hk k x Hx) as [Hxk HxU]. assert (x = b) by (apply (wf_id U Hwf); auto). subst x.
+        apply N.eqb_neq in Ek. congruence.
+    + apply N.eqb_neq in Ei. rewrite Hi. split.
+      * intros [x [Hx Hxi]]. exists x. split; [|exact Hxi]. destruct (k =? eh b) eqn:Ek; [|exact Hx]. exfalso.
+        apply N.eqb_eq in Ek. subst k. destruct (Hk _ x Hx) as [Hxk HxU].
+        assert (x = b) by (apply (wf_h U Hwf); auto). subst x. congruence.
+      * intros [x [Hx Hxi]]. exists x. split; [|exact Hxi]. destruct (k =? eh b) eqn:Ek; [|exact Hx].
+        exfalso. injection Hx as <-. congruence.
+  - intros t k idx.
+    assert (Hnd : NoDup (etxs b)) by (eapply wf_nodup; eauto).
+    destruct (memN t (etxs b)) eqn:Em.
+    + apply memN_In, In_nth_error in Em. destruct Em as [p Hp].
+      rewrite (put_txs_in _ _ _ _ _ _ Hnd Hp). rewrite N.add_0_l. split.
+      * intros H. injection H as <- <-. exists b. rewrite aget_aput_eq. rewrite Nnat.Nat2N.id. auto.
+      * intros [x [Hx Hxt]]. rewrite aget_aput in Hx.
+        assert (HxU : In x U /\ eh x = k).
+        { destruct (k =? eh b) eqn:Ek; [injection Hx as <-; apply N.eqb_eq in Ek; auto | destruct (Hk k x Hx); auto]. }
+        destruct HxU as [HxU Hxk].
+        destruct (wf_tx U Hwf b x _ _ t HbU HxU Hp Hxt) as [<- Hpi]. f_equal. f_equal; [congruence | lia].
+    + rewrite put_txs_notin; [|intros H; apply memN_In in H; congruence]. rewrite Ht. split.
+      * intros [x [Hx Hxt]]. exists x. split; [|exact Hxt]. rewrite aget_aput. destruct (k =? eh b) eqn:Ek; [|exact Hx].
+        exfalso. apply N.eqb_eq in Ek. subst k. destruct (Hk _ x Hx) as [Hxk HxU].
+        assert (x = b) by (apply (wf_h U Hwf); auto). subst x. eapply memN_false_nth; eauto.
+      * intros [x [Hx Hxt]]. exists x. split; [|exact Hxt]. rewrite aget_aput in Hx. destruct (k =? eh b) eqn:Ek; [|exact Hx].
+        exfalso. injection Hx as <-. eapply memN_false_nth; eauto.
+Qed.
+
+(* which cached heights insertBlockIntoCache evicts *)
+Definition evicted (s : ist) (b : eblock) (k : N) : bool :=
+  (i_W s <=? eh b) &&
+  match i_last s with
+  | Some l => if eh b =? l + 1 then k =? eh b - i_W s else k <=? eh b - i_W s
+  | None => k =? eh b - i_W s
+  end.
+
+Lemma memN_filter p l k : memN k (filter p l) = p k && memN k l.
+Proof.
+  induction l as [|x r IH]; cbn [filter memN]; [destruct (p k); reflexivity|].
+  destruct (p x) eqn:Ep; cbn [memN]; rewrite IH; destruct (k =? x) eqn:E; cbn [orb]; try reflexivity.
+  - apply N.eqb_eq in E. subst. rewrite Ep. reflexivity.
+  - apply N.eqb_eq in E. subst. rewrite Ep. reflexivity.
+Qed.
+
+Lemma insert_cache_spec U s b : chain_wf U -> In b U -> Coh U s ->
+  Coh U (insert_cache s b) /\ i_last (insert_cache s b) = Some (eh b) /\
+  i_W (insert_cache s b) = i_W s /\ i_db (insert_cache s b) = i_db s /\
+  (forall k, aget k (i_h2b (insert_cache s b)) =
+             if k =? eh b then Some b else if evicted s b k then None else aget k (i_h2b s)).
+Proof.
+  intros Hwf HbU Hc. unfold insert_cache.
+  set (s1 := if i_W s <=? eh b then _ else s).
+  assert (H1 : Coh U s1 /\ (forall k, aget k (i_h2b s1) = if evicted s b k then None else aget k (i_h2b s)) /\
+               i_W s1 = i_W s /\ i_db s1 = i_db s).
+  { unfold s1, evicted. destruct (i_W s <=? eh b); cbn [andb]; [|auto].
+    destruct (i_last s) as [l|].
+    - destruct (eh b =? l + 1).
+      + destruct (evict_spec U s (eh b - i_W s) Hwf Hc) as [Ha [Hb [_ [Hd He]]]]. auto.
+      + destruct (evict_many_spec U (filter (fun k => k <=? eh b - i_W s) (akeys (i_h2b s))) s Hwf Hc) as [Ha [Hb [_ [Hd He]]]].
+        split; [exact Ha|]. split; [|auto]. intros k. rewrite Hb, memN_filter.
+        destruct (k <=? eh b - i_W s); cbn [andb]; [|reflexivity].
+        destruct (memN k (akeys (i_h2b s))) eqn:Em; [reflexivity|].
+        apply aget_None_keys. intros H. apply memN_In in H. congruence.
+    - destruct (evict_spec U s (eh b - i_W s) Hwf Hc) as [Ha [Hb [_ [Hd He]]]]. auto. }
+  destruct H1 as [Hc1 [Hh1 [HW1 Hd1]]].
+  change (set_caches s1 _ _ _ _) with (pure_insert s1 b).
+  split; [apply pure_insert_coh; assumption|]. split; [reflexivity|]. split; [exact HW1|]. split; [exact Hd1|].
+  intros k. cbn [pure_insert set_caches i_h2b]. rewrite aget_aput, Hh1. reflexivity.
+Qed.
+
+Lemma insert_noevict s x :
+  (forall k y, aget k (i_h2b s) = Some y -> eh x < k + i_W s) -> insert_cache s x = pure_insert s x.
+Proof.
+  intros Hlow. unfold insert_cache.
+  assert (Hev : forall k, k + i_W s <= eh x -> evict s k = s).
+  { intros k Hk. unfold evict. destruct (aget k (i_h2b s)) as [y|] eqn:E; [|reflexivity].
+    apply Hlow in E. lia. }
+  assert (H1 : (if i_W s <=? eh x
+      then match i_last s with
+           | Some l => if eh x =? l + 1 then evict s (eh x - i_W s)
+                       else fold_left evict (filter (fun k => k <=? eh x - i_W s) (akeys (i_h2b s))) s
+           | None => evict s (eh x - i_W s)
+           end
+      else s) = s).
+  { destruct (i_W s <=? eh x) eqn:EW; [|reflexivity].
+    assert (evict s (eh x - i_W s) = s) by (apply Hev; lia).
+    destruct (i_last s) as [l|]; [|assumption]. destruct (eh x =? l + 1); [assumption|].
+    assert (filter (fun k => k <=? eh x - i_W s) (akeys (i_h2b s)) = []) as ->; [|reflexivity].
+    destruct (filter _ _) as [|k r] eqn:Ef; [reflexivity|]. exfalso.
+    assert (Hin : In k (filter (fun k => k <=? eh x - i_W s) (akeys (i_h2b s)))) by (rewrite Ef; left; reflexivity).
+    apply filter_In in Hin. destruct Hin as [Hin Hle]. apply In_keys_aget in Hin. destruct Hin as [y Hy].
+    apply Hlow in Hy. lia. }
+  rewrite H1. reflexivity.
+Qed.
+
+(* ------------------------------------------------------------------ the representation invariant *)
+Definition last_height (bs : list eblock) : option N :=
+  match rev bs with [] => None | b :: _ => Some (eh b) end.
+
+Lemma last_height_app bs b : last_height (bs ++ [b]) = Some (eh b).
+Proof. unfold last_height. rewrite rev_unit. reflexivity. Qed.
+
+Record Rep (W : N) (U bs : list eblock) (s : ist) : Prop := mkRep {
+  r_W : i_W s = W;
+  r_coh : Coh U s;
+  r_sub : incl bs U;
+  r_h2b : forall k x, aget k (i_h2b s) = Some x <->
+            In x bs /\ eh x = k /\ exists l, i_last s = Some l /\ k <= l /\ l < k + W;
+  r_le : forall x, In x bs -> exists l, i_last s = Some l /\ eh x <= l;
+  r_last : i_last s = last_height bs;
+  r_db : forall k, aget k (i_db s) = aget k (i_h2b s);
+  r_nd : NoDup (akeys (i_db s))
+}.
+
+Lemma last_height_In bs l : last_height bs = Some l -> exists x, In x bs /\ eh x = l.
+Proof.
+  unfold last_height. destruct (rev bs) as [|b r] eqn:E; [discriminate|]. intros H. injection H as <-.
+  exists b. split; [|reflexivity]. apply in_rev. rewrite E. left. reflexivity.
+Qed.
+
+Lemma rep_init W U : Rep W U [] (init W).
+Proof.
+  constructor; cbn; auto.
+  - constructor; cbn.
+    + discriminate.
+    + intros i h. split; [discriminate | intros [b [H _]]; discriminate].
+    + intros t h idx. split; [discriminate | intros [b [H _]]; discriminate].
+  - intros x [].
+  - intros k x. split; [discriminate | intros [[] _]].
+  - intros x [].
+  - constructor.
+Qed.
+
+Lemma coh_set_db U s d : Coh U s -> Coh U (set_db s d).
+Proof. intros [H1 H2 H3]. constructor; assumption. Qed.
+
+Lemma rep_notify W U bs s b :
+  W <> 0 -> chain_wf U -> In b U -> (forall l, i_last s = Some l -> l <= eh b) ->
+  Rep W U bs s -> Rep W U (bs ++ [b]) (notify s b).
+Proof.
+  intros HW0 Hwf HbU Hmono [HW Hc Hsub Hh Hle Hlast Hdb Hnd].
+  destruct (insert_cache_spec U s b Hwf HbU Hc) as [Hc1 [Hl1 [HW1 [Hd1 Hh1]]]].
+  unfold notify, store_block. set (c := insert_cache s b) in *.
+  set (consec := match i_last s with None => true | Some l => eh b =? l + 1 end).
+  rewrite HW1, HW, Hd1.
+  (* old cache keys are inside the old window *)
+  assert (Hold : forall k x, aget k (i_h2b s) = Some x -> exists l, i_last s = Some l /\ k <= l /\ l < k + W).
+  { intros k x Hx. apply Hh in Hx. tauto. }
+  assert (HF : forall k, aget k (i_h2b c) = if k =? eh b then Some b else if eh b <? k + W then aget k (i_h2b s) else None).
+  { intros k. rewrite Hh1. destruct (k =? eh b) eqn:Ek; [reflexivity|]. unfold evicted. rewrite HW.
+    destruct (aget k (i_h2b s)) as [x|] eqn:Ex.
+    - destruct (Hold k x Ex) as [l [Hl [Hkl Hlk]]]. rewrite Hl. specialize (Hmono l Hl).
+      destruct (eh b =? l + 1) eqn:Ec; destruct (W <=? eh b) eqn:EW; destruct (eh b <? k + W) eqn:Ew; cbn [andb];
+        try reflexivity; try (destruct (k =? eh b - W) eqn:E1; try reflexivity; lia);
+        try (destruct (k <=? eh b - W) eqn:E1; try reflexivity; lia).
+    - destruct (_ && _); destruct (eh b <? k + W); reflexivity. }
+  constructor; cbn [set_db i_W i_h2b i_last i_db i_id2h i_tx].
+  - congruence.
+  - apply coh_set_db. exact Hc1.
+  - intros x Hx. apply in_app_or in Hx. destruct Hx as [Hx|[<-|[]]]; auto.
+  - intros k x. rewrite HF, Hl1. destruct (k =? eh b) eqn:Ek.
+    + apply N.eqb_eq in Ek. subst k. split.
+      * intros H. injection H as <-. split; [apply in_or_app; right; left; reflexivity|]. split; [reflexivity|].
+        exists (eh b). split; [reflexivity | lia].
+      * intros [Hx [Hxk _]]. f_equal. apply (wf_h U Hwf); auto.
+        apply in_app_or in Hx. destruct Hx as [Hx|[<-|[]]]; auto.
+    + apply N.eqb_neq in Ek. destruct (eh b <? k + W) eqn:Ew.
+      * rewrite Hh. split.
+        -- intros [Hx [Hxk [l [Hl [Hkl Hlk]]]]]. split; [apply in_or_app; left; exact Hx|]. split; [exact Hxk|].
+           exists (eh b). specialize (Hmono l Hl). split; [reflexivity | lia].
+        -- intros [Hx [Hxk [l' [Hl' [Hkl Hlk]]]]]. injection Hl' as <-.
+           apply in_app_or in Hx. destruct Hx as [Hx|[<-|[]]]; [|congruence].
+           split; [exact Hx|]. split; [exact Hxk|]. destruct (Hle x Hx) as [l [Hl Hxl]]. exists l.
+           specialize (Hmono l Hl). split; [exact Hl | lia].
+      * split; [discriminate|]. intros [_ [_ [l' [Hl' [Hkl Hlk]]]]]. injection Hl' as <-. lia.
+  - intros x Hx. exists (eh b). split; [exact Hl1|]. apply in_app_or in Hx. destruct Hx as [Hx|[<-|[]]]; [|lia].
+    destruct (Hle x Hx) as [l [Hl Hxl]]. specialize (Hmono l Hl). lia.
+  - rewrite Hl1, last_height_app. reflexivity.
+  - intros k. rewrite HF.
+    assert (Hd2 : forall k, aget k (if W <=? eh b then adel (eh b - W) (aput (eh b) b (i_db s)) else aput (eh b) b (i_db s)) =
+             if (W <=? eh b) && (k =? eh b - W) then None else if k =? eh b then Some b else aget k (i_db s)).
+    { intros k'. destruct (W <=? eh b); cbn [andb]; [|apply aget_aput].
+      rewrite aget_adel, aget_aput, (N.eqb_sym (eh b - W) k'). reflexivity. }
+    destruct (negb consec && (W <? eh b)) eqn:Ef.
+    + rewrite aget_afilter, Hd2, Hdb. unfold consec in Ef.
+      destruct (i_last s) as [l|] eqn:El; [|discriminate]. specialize (Hmono l eq_refl).
+      destruct (k =? eh b) eqn:Ek; destruct (k <? eh b - W) eqn:E1; destruct (W <=? eh b) eqn:E2;
+        destruct (k =? eh b - W) eqn:E3; destruct (eh b <? k + W) eqn:E4; cbn [negb andb]; try reflexivity; try lia.
+      all: destruct (aget k (i_h2b s)) as [x|] eqn:Ex; try reflexivity;
+           destruct (Hold k x Ex) as [l' [Hl' [Hkl Hlk]]]; assert (l' = l) by congruence; subst l'; lia.
+    + rewrite Hd2, Hdb. unfold consec in Ef.
+      destruct (k =? eh b) eqn:Ek; destruct (W <=? eh b) eqn:E2;
+        destruct (k =? eh b - W) eqn:E3; destruct (eh b <? k + W) eqn:E4; cbn [negb andb]; try reflexivity; try lia.
+      all: destruct (aget k (i_h2b s)) as [x|] eqn:Ex; try reflexivity;
+           destruct (Hold k x Ex) as [l [Hl [Hkl Hlk]]]; rewrite Hl in Ef; specialize (Hmono l Hl);
+           destruct (eh b =? l + 1) eqn:E5; cbn [negb andb] in Ef; lia.
+  - assert (NoDup (akeys (if W <=? eh b then adel (eh b - W) (aput (eh b) b (i_db s)) else aput (eh b) b (i_db s)))).
+    { destruct (W <=? eh b); auto using nodup_adel, nodup_aput. }
+    destruct (_ && _); auto using nodup_afilter.
+Qed.
+
+(* ------------------------------------------------------------------ reload on restart *)
+Lemma ins_sorted_In e l x : In x (ins_sorted e l) <-> x = e \/ In x l.
+Proof.
+  induction l as [|y r IH]; cbn [ins_sorted In]; [intuition|].
+  destruct (fst e <=? fst y); cbn [In]; [intuition | rewrite IH; intuition].
+Qed.
+
+Lemma sort_db_In d x : In x (sort_db d) <-> In x d.
+Proof.
+  induction d as [|y r IH]; cbn [sort_db fold_right In]; [tauto|].
+  fold (sort_db r). rewrite ins_sorted_In, IH. intuition.
+Qed.
+
+Definition kle (a b : N * eblock) : Prop := fst a <= fst b.
+
+Lemma ins_sorted_sorted e l : StronglySorted kle l -> StronglySorted kle (ins_sorted e l).
+Proof.
+  induction 1 as [|y r Hs IH Hf]; cbn [ins_sorted]; [repeat constructor|].
+  destruct (fst e <=? fst y) eqn:E.
+  - constructor; [constructor; assumption|]. constructor; [unfold kle; lia|].
+    rewrite Forall_forall in Hf |- *. intros z Hz. specialize (Hf z Hz). unfold kle in *. lia.
+  - constructor; [exact IH|]. rewrite Forall_forall in Hf |- *. intros z Hz.
+    apply ins_sorted_In in Hz. destruct Hz as [->|Hz]; [unfold kle; lia | apply Hf; exact Hz].
+Qed.
+
+Lemma sort_db_sorted d : StronglySorted kle (sort_db d).
+Proof.
+  induction d as [|y r IH]; cbn [sort_db fold_right]; [constructor|]. apply ins_sorted_sorted. exact IH.
+Qed.
+
+Lemma sorted_last_max l d : StronglySorted kle l -> forall e, In e l -> fst e <= fst (last l d).
+Proof.
+  induction 1 as [|y r Hs IH Hf]; intros e He; [destruct He|].
+  destruct r as [|z r'].
+  - destruct He as [<-|[]]. cbn. lia.
+  - change (last (y :: z :: r') d) with (last (z :: r') d). destruct He as [<-|He]; [|apply IH; exact He].
+    rewrite Forall_forall in Hf. assert (Hl : In (last (z :: r') d) (z :: r')).
+    { clear. generalize z. induction r' as [|w r IH]; intros z0; [left; reflexivity|].
+      change (last (z0 :: w :: r) d) with (last (w :: r) d). right. apply IH. }
+    apply Hf in Hl. exact Hl.
+Qed.
+
+Lemma rebuild_fold U W L : chain_wf U -> forall l c done,
+  i_W c = W -> Coh U c ->
+  (forall e, In e l -> eh (snd e) = fst e /\ In (snd e) U /\ fst e <= L /\ L < fst e + W) ->
+  (forall k x, aget k (i_h2b c) = Some x <-> In (k, x) done) ->
+  (forall k x, In (k, x) done -> L < k + W) ->
+  let c' := fold_left (fun c e => insert_cache c (snd e)) l c in
+  Coh U c' /\ i_W c' = W /\ i_db c' = i_db c /\
+  (forall k x, aget k (i_h2b c') = Some x <-> In (k, x) (done ++ l)) /\
+  i_last c' = match l with [] => i_last c | _ => Some (fst (last l (0, mkE 0 0 0 [] []))) end.
+Proof.
+  intros Hwf. induction l as [|e r IH]; intros c done HW Hc Hent Hdone Hlow; cbn zeta.
+  - cbn [fold_left]. rewrite app_nil_r. auto.
+  - cbn [fold_left]. destruct (Hent e (or_introl eq_refl)) as [He1 [He2 [He3 He4]]].
+    assert (Hpi : insert_cache c (snd e) = pure_insert c (snd e)).
+    { apply insert_noevict. intros k y Hy. apply Hdone in Hy. apply Hlow in Hy. rewrite HW. lia. }
+    rewrite Hpi.
+    assert (Hdone' : forall k x, aget k (i_h2b (pure_insert c (snd e))) = Some x <-> In (k, x) (done ++ [e])).
+    { intros k x. cbn [pure_insert set_caches i_h2b]. rewrite aget_aput, in_app_iff. cbn [In].
+      destruct (k =? eh (snd e)) eqn:Ek.
+      - apply N.eqb_eq in Ek. split.
+        + intros H. injection H as <-. right. left. destruct e; cbn in *; congruence.
+        + intros [H|[H|[]]].
+          * apply Hdone in H. destruct (c_key U c Hc k x H) as [Hxk HxU]. f_equal.
+            apply (wf_h U Hwf); auto. congruence.
+          * subst e. reflexivity.
+      - apply N.eqb_neq in Ek. rewrite Hdone. split; [auto|]. intros [H|[H|[]]]; [exact H|].
+        subst e. cbn in *. congruence. }
+    destruct (IH (pure_insert c (snd e)) (done ++ [e])) as [Ha [Hb [Hd [Hf Hg]]]].
+    + exact HW.
+    + apply pure_insert_coh; assumption.
+    + intros e' He'. apply Hent. right. exact He'.
+    + exact Hdone'.
+    + intros k x H. apply in_app_or in H. destruct H as [H|[H|[]]]; [eapply Hlow; eauto|].
+      subst e. cbn in *. exact He4.
+    + split; [exact Ha|]. split; [exact Hb|]. split; [exact Hd|]. split.
+      * intros k x. rewrite Hf, <- app_assoc. reflexivity.
+      * rewrite Hg. destruct r as [|e2 r']; [cbn; congruence | reflexivity].
+Qed.
+
+Lemma rep_restart W U bs s : W <> 0 -> chain_wf U -> Rep W U bs s ->
+  Rep W U bs (restart s W) /\ i_last (restart s W) = i_last s.
+Proof.
+  intros HW0 Hwf [HW Hc Hsub Hh Hle Hlast Hdb Hnd].
+  unfold restart. set (s0 := mkI W [] [] [] None (i_db s)).
+  (* facts about the stored entries *)
+  assert (Hent : forall e, In e (i_db s) -> aget (fst e) (i_h2b s) = Some (snd e)).
+  { intros [k x] He. cbn [fst snd]. rewrite <- Hdb. apply In_aget_nodup; assumption. }
+  assert (Hc0 : Coh U s0).
+  { constructor; cbn.
+    - discriminate.
+    - intros i h. split; [discriminate | intros [b [H _]]; discriminate].
+    - intros t h idx. split; [discriminate | intros [b [H _]]; discriminate]. }
+  destruct (i_last s) as [L|] eqn:EL.
+  - pose proof (rebuild_fold U W L Hwf (sort_db (i_db s)) s0 [] eq_refl Hc0) as HR.
+    cbn zeta in HR. destruct HR as [Ha [Hb [Hd [Hf Hg]]]].
+    + intros e He. apply (proj1 (sort_db_In _ _)) in He. apply Hent in He. apply Hh in He.
+      destruct He as [Hx [Hxk [l [Hl [Hkl Hlk]]]]]. injection Hl as <-. split; [exact Hxk|]. auto.
+    + intros k x. cbn. split; [discriminate | intros []].
+    + intros k x [].
+    + cbn [app] in Hf. set (s1 := fold_left _ _ s0) in *.
+      (* the reloaded height->block map is the store, which was the old map *)
+      assert (Hsame : forall k, aget k (i_h2b s1) = aget k (i_h2b s)).
+      { intros k. apply opt_ext. intros x. rewrite Hf, sort_db_In. split.
+        - intros H. apply Hent in H. exact H.
+        - intros H. rewrite <- Hdb in H. apply aget_In. exact H. }
+      (* last height *)
+      destruct (last_height_In bs L (eq_sym Hlast)) as [xL [HxL HxLh]].
+      assert (HL : aget L (i_h2b s) = Some xL) by (apply Hh; split; [exact HxL|]; split; [exact HxLh|]; exists L; split; [reflexivity | lia]).
+      assert (HinL : In (L, xL) (sort_db (i_db s))) by (apply (proj2 (sort_db_In _ _)), aget_In; rewrite Hdb; exact HL).
+      assert (Hlast1 : i_last s1 = Some L).
+      { rewrite Hg. destruct (sort_db (i_db s)) as [|e0 r0] eqn:Es; [destruct HinL|]. f_equal.
+        pose proof (sort_db_sorted (i_db s)) as Hss. rewrite Es in Hss.
+        pose proof (sorted_last_max _ (0, mkE 0 0 0 [] []) Hss (L, xL) HinL) as Hmax. cbn [fst] in Hmax.
+        assert (Hlastin : In (last (e0 :: r0) (0, mkE 0 0 0 [] [])) (i_db s)).
+        { apply (proj1 (sort_db_In _ _)). rewrite Es. clear. generalize e0. induction r0 as [|w r IH]; intros z0; [left; reflexivity|].
+          change (last (z0 :: w :: r) (0, mkE 0 0 0 [] [])) with (last (w :: r) (0, mkE 0 0 0 [] [])). right. apply IH. }
+        apply Hent in Hlastin. apply Hh in Hlastin. destruct Hlastin as [_ [_ [l [Hl [Hkl _]]]]]. injection Hl as <-. lia. }
+      rewrite Hlast1.
+      assert (Hrep1 : forall d', (forall k, aget k d' = aget k (i_db s)) -> NoDup (akeys d') -> Rep W U bs (set_db s1 d')).
+      { intros d' Hd' Hnd'. constructor; cbn [set_db i_W i_h2b i_last i_db i_id2h i_tx].
+        - exact Hb.
+        - apply coh_set_db. exact Ha.
+        - exact Hsub.
+        - intros k x. rewrite Hsame, Hlast1. apply Hh.
+        - intros x Hx. rewrite Hlast1. apply Hle. exact Hx.
+        - rewrite Hlast1. exact Hlast.
+        - intros k. rewrite Hd', Hsame. apply Hdb.
+        - exact Hnd'. }
+      destruct (W <? L) eqn:EWL.
+      * split; [|cbn [set_db i_last]; exact Hlast1]. apply Hrep1.
+        -- intros k. rewrite Hd. cbn [s0 i_db]. rewrite aget_afilter. destruct (k <? L - W) eqn:Ek; cbn [negb]; [|reflexivity].
+           symmetry. rewrite Hdb. destruct (aget k (i_h2b s)) as [x|] eqn:Ex; [|reflexivity].
+           apply Hh in Ex. destruct Ex as [_ [_ [l [Hl [Hkl Hlk]]]]]. injection Hl as <-. lia.
+        -- rewrite Hd. cbn [s0 i_db]. apply nodup_afilter. exact Hnd.
+      * split; [|exact Hlast1]. replace s1 with (set_db s1 (i_db s1)) by (destruct s1; reflexivity). apply Hrep1.
+        -- intros k. rewrite Hd. reflexivity.
+        -- rewrite Hd. exact Hnd.
+  - (* nothing was ever notified: empty store *)
+    assert (Hbs : bs = []).
+    { destruct bs as [|x r]; [reflexivity|]. destruct (Hle x (or_introl eq_refl)) as [l [Hl _]]. discriminate. }
+    assert (Hempty : i_db s = []).
+    { destruct (i_db s) as [|[k x] r] eqn:Ed; [reflexivity|]. exfalso.
+      assert (H : aget k (i_h2b s) = Some x) by (rewrite <- Hdb; cbn [aget]; rewrite N.eqb_refl; reflexivity).
+      apply Hh in H. destruct H as [_ [_ [l [Hl _]]]]. discriminate. }
+    subst s0. rewrite Hempty. cbn [sort_db fold_right fold_left i_last].
+    split; [|reflexivity]. subst bs. apply rep_init.
+Qed.
+
+(* ------------------------------------------------------------------ histories *)
+Fixpoint notifs (ops : list iop) : list eblock :=
+  match ops with
+  | [] => []
+  | INotify b :: r => b :: notifs r
+  | IRestart _ :: r => notifs r
+  end.
+
+Fixpoint monoL (last : option N) (bs : list eblock) : Prop :=
+  match bs with
+  | [] => True
+  | b :: r => (forall l, last = Some l -> l <= eh b) /\ monoL (Some (eh b)) r
+  end.
+
+Definition same_window (W : N) (ops : list iop) : Prop := forall W', In (IRestart W') ops -> W' = W.
+
+Lemma irun_cons s o ops : irun s (o :: ops) = irun (istep s o) ops.
 Proof. reflexivity. Qed.
+Lemma irun_app s a b : irun s (a ++ b) = irun (irun s a) b.
+Proof. unfold irun. apply fold_left_app. Qed.
+Lemma notifs_app a b : notifs (a ++ b) = notifs a ++ notifs b.
+Proof. induction a as [|o a IH]; [reflexivity|]. destruct o; cbn [app notifs]; rewrite IH; reflexivity. Qed.
+
+Lemma rep_run W U : W <> 0 -> chain_wf U -> forall ops s bs,
+  Rep W U bs s -> incl (notifs ops) U -> same_window W ops -> monoL (i_last s) (notifs ops) ->
+  Rep W U (bs ++ notifs ops) (irun s ops).
+Proof.
+  intros HW0 Hwf. induction ops as [|o r IH]; intros s bs Hrep Hincl Hsw Hm.
+  - cbn [notifs irun fold_left]. rewrite app_nil_r. exact Hrep.
+  - rewrite irun_cons. destruct o as [b|W']; cbn [notifs istep] in *.
+    + destruct Hm as [Hm1 Hm2].
+      replace (bs ++ b :: notifs r) with ((bs ++ [b]) ++ notifs r) by (rewrite <- app_assoc; reflexivity).
+      assert (Hrep' : Rep W U (bs ++ [b]) (notify s b)).
+      { apply rep_notify; auto. apply Hincl. left. reflexivity. }
+      apply IH; [exact Hrep' | | |].
+      * intros x Hx. apply Hincl. right. exact Hx.
+      * intros W' H. apply Hsw. right. exact H.
+      * rewrite (r_last _ _ _ _ Hrep'), last_height_app. exact Hm2.
+    + assert (W' = W) by (apply Hsw; left; reflexivity). subst W'.
+      destruct (rep_restart W U bs s HW0 Hwf Hrep) as [Hrep' Hl].
+      apply IH; [exact Hrep' | exact Hincl | | rewrite Hl; exact Hm].
+      intros W' H. apply Hsw. right. exact H.
+Qed.
+
+Theorem rep_reach W U ops : W <> 0 -> chain_wf U -> incl (notifs ops) U -> same_window W ops ->
+  monoL None (notifs ops) -> Rep W U (notifs ops) (irun (init W) ops).
+Proof.
+  intros HW0 Hwf Hincl Hsw Hm. apply (rep_run W U HW0 Hwf ops (init W) []); auto. apply rep_init.
+Qed.
+
+(* ------------------------------------------------------------------ answers are determined by the history *)
+(* height h is inside the window of a history whose last notified height is [last] *)
+Definition inwin (W : N) (last : option N) (h : N) : Prop := exists l, last = Some l /\ h <= l /\ l < h + W.
+
+Lemma rep_by_height W U bs s : Rep W U bs s -> forall h b,
+  get_by_height s h = Some b <-> In b bs /\ eh b = h /\ inwin W (last_height bs) h.
+Proof. intros Hr h b. unfold get_by_height, inwin. rewrite <- (r_last _ _ _ _ Hr). apply (r_h2b _ _ _ _ Hr). Qed.
+
+Lemma rep_by_id W U bs s : chain_wf U -> Rep W U bs s -> forall i b,
+  get_block s i = Some b <-> In b bs /\ eid b = i /\ inwin W (last_height bs) (eh b).
+Proof.
+  intros Hwf Hr i b. unfold get_block. pose proof (r_coh _ _ _ _ Hr) as Hc.
+  destruct (aget i (i_id2h s)) as [h|] eqn:Ei.
+  - apply (c_id U s Hc) in Ei. destruct Ei as [x [Hx Hxi]].
+    destruct (c_key U s Hc h x Hx) as [Hxh HxU].
+    pose proof (proj1 (rep_by_height W U bs s Hr h x) Hx) as [Hxb [_ Hxw]].
+    unfold get_by_height. rewrite Hx. split.
+    + intros H. injection H as <-. rewrite Hxh. auto.
+    + intros [Hb [Hbi Hw]]. f_equal. apply (wf_id U Hwf); [exact HxU | apply (r_sub _ _ _ _ Hr); exact Hb | congruence].
+  - split; [discriminate|]. intros [Hb [Hbi Hw]]. exfalso.
+    assert (Hx : aget (eh b) (i_h2b s) = Some b) by (apply (rep_by_height W U bs s Hr); auto).
+    assert (aget i (i_id2h s) = Some (eh b)) by (apply (c_id U s Hc); eauto). congruence.
+Qed.
+
+Lemma rep_tx_found W U bs s : chain_wf U -> Rep W U bs s -> forall t b p,
+  In b bs -> inwin W (last_height bs) (eh b) -> nth_error (etxs b) p = Some t ->
+  exists r, nth_error (eres b) p = Some r /\ get_tx s t = TxFound t (ets b) r.
+Proof.
+  intros Hwf Hr t b p Hb Hw Hp. pose proof (r_coh _ _ _ _ Hr) as Hc.
+  assert (Hx : aget (eh b) (i_h2b s) = Some b) by (apply (rep_by_height W U bs s Hr); auto).
+  assert (Htx : aget t (i_tx s) = Some (eh b, N.of_nat p)).
+  { apply (c_tx U s Hc). exists b. rewrite Nnat.Nat2N.id. auto. }
+  assert (HbU : In b U) by (apply (r_sub _ _ _ _ Hr); exact Hb).
+  destruct (nth_error (eres b) p) as [r|] eqn:Er.
+  - exists r. split; [reflexivity|]. unfold get_tx. rewrite Htx, Hx, Nnat.Nat2N.id, Hp, Er. reflexivity.
+  - exfalso. apply nth_error_None in Er. rewrite (wf_res U Hwf b HbU) in Er.
+    assert (nth_error (etxs b) p <> None) by congruence. apply nth_error_Some in H. lia.
+Qed.
+
+Lemma rep_tx_none W U bs s : chain_wf U -> Rep W U bs s -> forall t,
+  (forall b, In b bs -> inwin W (last_height bs) (eh b) -> ~ In t (etxs b)) -> get_tx s t = TxNone.
+Proof.
+  intros Hwf Hr t Hno. pose proof (r_coh _ _ _ _ Hr) as Hc. unfold get_tx.
+  destruct (aget t (i_tx s)) as [[h idx]|] eqn:Et; [|reflexivity]. exfalso.
+  apply (c_tx U s Hc) in Et. destruct Et as [b [Hb Hbt]].
+  apply (rep_by_height W U bs s Hr) in Hb. destruct Hb as [Hb [Hbh Hw]]. subst h.
+  apply (Hno b Hb Hw). eapply nth_error_In. exact Hbt.
+Qed.
+
+Lemma rep_latest W U bs s : W <> 0 -> Rep W U bs s ->
+  match last_height bs with
+  | None => get_latest s = (1, None)
+  | Some l => exists b, In b bs /\ eh b = l /\ get_latest s = (0, Some b)
+  end.
+Proof.
+  intros HW0 Hr. unfold get_latest. rewrite (r_last _ _ _ _ Hr).
+  destruct (last_height bs) as [l|] eqn:El; [|reflexivity].
+  destruct (last_height_In bs l El) as [b [Hb Hbl]]. exists b. split; [exact Hb|]. split; [exact Hbl|].
+  assert (get_by_height s l = Some b) as ->; [|reflexivity].
+  apply (rep_by_height W U bs s Hr). split; [exact Hb|]. split; [exact Hbl|]. exists l. rewrite El. split; [reflexivity | lia].
+Qed.
+
+(* two states representing the same history give the same answers *)
+Definition answers_eq (s1 s2 : ist) : Prop :=
+  (forall h, get_by_height s1 h = get_by_height s2 h) /\ (forall i, get_block s1 i = get_block s2 i) /\
+  (forall t, get_tx s1 t = get_tx s2 t) /\ get_latest s1 = get_latest s2.
+
+Lemma rep_answers_eq W U bs s1 s2 : W <> 0 -> chain_wf U -> Rep W U bs s1 -> Rep W U bs s2 -> answers_eq s1 s2.
+Proof.
+  intros HW0 Hwf H1 H2.
+  assert (Hh : forall h, get_by_height s1 h = get_by_height s2 h).
+  { intros h. apply opt_ext. intros x. rewrite (rep_by_height W U bs s1 H1), (rep_by_height W U bs s2 H2). reflexivity. }
+  split; [exact Hh|]. split; [|split].
+  - intros i. apply opt_ext. intros x. rewrite (rep_by_id W U bs s1 Hwf H1), (rep_by_id W U bs s2 Hwf H2). reflexivity.
+  - intros t. pose proof (r_coh _ _ _ _ H1) as C1. pose proof (r_coh _ _ _ _ H2) as C2.
+    assert (Htx : aget t (i_tx s1) = aget t (i_tx s2)).
+    { apply opt_ext. intros [h idx]. rewrite (c_tx U s1 C1), (c_tx U s2 C2).
+      split; intros [b [Hb Hbt]]; exists b; (split; [|exact Hbt]).
+      - specialize (Hh h). unfold get_by_height in Hh. congruence.
+      - specialize (Hh h). unfold get_by_height in Hh. congruence. }
+    unfold get_tx. rewrite Htx. destruct (aget t (i_tx s2)) as [[h idx]|]; [|reflexivity].
+    specialize (Hh h). unfold get_by_height in Hh. rewrite Hh. reflexivity.
+  - unfold get_latest. rewrite (r_last _ _ _ _ H1), (r_last _ _ _ _ H2). destruct (last_height bs) as [l|]; [|reflexivity].
+    rewrite (Hh l). reflexivity.
+Qed.
+
+Lemma rep_set_ext W U bs bs' s : Rep W U bs s -> (forall x, In x bs <-> In x bs') -> last_height bs = last_height bs' ->
+  Rep W U bs' s.
+Proof.
+  intros [HW Hc Hsub Hh Hle Hlast Hdb Hnd] Hext Hl. constructor; auto.
+  - intros x Hx. apply Hsub. apply Hext. exact Hx.
+  - intros k x. rewrite Hh, Hext. reflexivity.
+  - intros x Hx. apply Hle. apply Hext. exact Hx.
+  - congruence.
+Qed.
+
+(* ------------------------------------------------------------------ the three property statements *)
+Theorem window_answers W ops :
+  W <> 0 -> chain_wf (notifs ops) -> same_window W ops -> monoL None (notifs ops) ->
+  let s := irun (init W) ops in
+  let bs := notifs ops in
+  (forall h b, get_by_height s h = Some b <-> In b bs /\ eh b = h /\ inwin W (last_height bs) h) /\
+  (forall i b, get_block s i = Some b <-> In b bs /\ eid b = i /\ inwin W (last_height bs) (eh b)) /\
+  (forall t b p, In b bs -> inwin W (last_height bs) (eh b) -> nth_error (etxs b) p = Some t ->
+     exists r, nth_error (eres b) p = Some r /\ get_tx s t = TxFound t (ets b) r) /\
+  (forall t, (forall b, In b bs -> inwin W (last_height bs) (eh b) -> ~ In t (etxs b)) -> get_tx s t = TxNone) /\
+  match last_height bs with
+  | None => get_latest s = (1, None)
+  | Some l => exists b, In b bs /\ eh b = l /\ get_latest s = (0, Some b)
+  end.
+Proof.
+  intros HW0 Hwf Hsw Hm s bs.
+  assert (Hr : Rep W bs bs s) by (apply rep_reach; auto using incl_refl).
+  split; [apply (rep_by_height W bs bs s Hr)|]. split; [apply (rep_by_id W bs bs s Hwf Hr)|].
+  split; [apply (rep_tx_found W bs bs s Hwf Hr)|]. split; [apply (rep_tx_none W bs bs s Hwf Hr)|].
+  apply (rep_latest W bs bs s HW0 Hr).
+Qed.
+
+Theorem restart_stable W ops1 ops2 :
+  W <> 0 -> chain_wf (notifs (ops1 ++ ops2)) -> same_window W (ops1 ++ ops2) -> monoL None (notifs (ops1 ++ ops2)) ->
+  answers_eq (irun (init W) (ops1 ++ IRestart W :: ops2)) (irun (init W) (ops1 ++ ops2)).
+Proof.
+  intros HW0 Hwf Hsw Hm.
+  assert (Hn : notifs (ops1 ++ IRestart W :: ops2) = notifs (ops1 ++ ops2)) by (rewrite !notifs_app; reflexivity).
+  apply (rep_answers_eq W (notifs (ops1 ++ ops2)) (notifs (ops1 ++ ops2))); auto.
+  - rewrite <- Hn at 2. apply rep_reach; auto.
+    + rewrite Hn. apply incl_refl.
+    + intros W' H. apply in_app_or in H. destruct H as [H|[H|H]].
+      * apply Hsw. apply in_or_app. left. exact H.
+      * congruence.
+      * apply Hsw. apply in_or_app. right. exact H.
+    + rewrite Hn. exact Hm.
+  - apply rep_reach; auto using incl_refl.
+Qed.
+
+Lemma monoL_snoc_again l : forall last b, monoL last (l ++ [b]) -> monoL last ((l ++ [b]) ++ [b]).
+Proof.
+  induction l as [|x r IH]; intros last b H; cbn [app monoL] in *.
+  - destruct H as [H1 _]. split; [exact H1|]. split; [|exact I]. intros l Hl. injection Hl as <-. lia.
+  - destruct H as [H1 H2]. split; [exact H1|]. apply IH. exact H2.
+Qed.
+
+Theorem redelivery_idempotent W ops pre b :
+  W <> 0 -> notifs ops = pre ++ [b] -> chain_wf (notifs ops) -> same_window W ops -> monoL None (notifs ops) ->
+  answers_eq (irun (init W) (ops ++ [INotify b])) (irun (init W) ops).
+Proof.
+  intros HW0 Hlast Hwf Hsw Hm.
+  assert (Hb : In b (notifs ops)) by (rewrite Hlast; apply in_or_app; right; left; reflexivity).
+  apply (rep_answers_eq W (notifs ops) (notifs ops)); auto; [|apply rep_reach; auto using incl_refl].
+  apply (rep_set_ext W (notifs ops) (notifs (ops ++ [INotify b]))).
+  - apply rep_reach; auto.
+    + rewrite notifs_app. cbn [notifs]. intros x Hx. apply in_app_or in Hx. destruct Hx as [Hx|[<-|[]]]; auto.
+    + intros W' H. apply in_app_or in H. destruct H as [H|[H|[]]]; [apply Hsw; exact H | discriminate].
+    + rewrite notifs_app. cbn [notifs]. rewrite Hlast in Hm |- *. apply monoL_snoc_again. exact Hm.
+  - intros x. rewrite notifs_app. cbn [notifs]. rewrite in_app_iff. cbn [In]. split; [intros [H|[<-|[]]]; auto | auto].
+  - rewrite notifs_app. cbn [notifs]. rewrite last_height_app, Hlast, last_height_app. reflexivity.
+Qed.
+
+(* decidable well-formedness for the examples *)
+Fixpoint nodupNb (l : list N) : bool :=
+  match l with [] => true | x :: r => negb (memN x r) && nodupNb r end.
+
+Lemma nodupNb_spec l : nodupNb l = true -> NoDup l.
+Proof.
+  induction l as [|x r IH]; cbn [nodupNb]; [constructor|].
+  intros H. apply andb_true_iff in H. destruct H as [H1 H2]. constructor; [|auto].
+  intros Hin. apply memN_In in Hin. rewrite Hin in H1. discriminate.
+Qed.
+
+(* blocks listed with pairwise distinct heights, ids and transactions, one result per transaction *)
+Definition table_wfb (t : list eblock) : bool :=
+  nodupNb (map eh t) && nodupNb (map eid t) && nodupNb (flat_map etxs t) &&
+  forallb (fun b => Nat.eqb (length (eres b)) (length (etxs b))) t.
+
+Lemma NoDup_map_inj {A} (f : A -> N) l x y : NoDup (map f l) -> In x l -> In y l -> f x = f y -> x = y.
+Proof.
+  induction l as [|z r IH]; cbn [map]; intros Hnd Hx Hy Hf; [destruct Hx|].
+  inversion Hnd as [|a l' Hni Hnd']; subst.
+  destruct Hx as [->|Hx], Hy as [->|Hy]; auto.
+  - exfalso. apply Hni. rewrite Hf. apply in_map. exact Hy.
+  - exfalso. apply Hni. rewrite <- Hf. apply in_map. exact Hx.
+Qed.
+
+Lemma nodup_app_left {A} (a b : list A) : NoDup (a ++ b) -> NoDup a.
+Proof.
+  induction a as [|x a IH]; cbn [app]; intros H; [constructor|].
+  inversion H as [|y l Hni Hnd]; subst. constructor; [|auto]. intros Hin. apply Hni. apply in_or_app. left. exact Hin.
+Qed.
+Lemma nodup_app_right {A} (a b : list A) : NoDup (a ++ b) -> NoDup b.
+Proof. induction a as [|x a IH]; cbn [app]; intros H; [exact H|]. inversion H; subst. auto. Qed.
+
+Lemma flat_nodup_tx (t : list eblock) : NoDup (flat_map etxs t) ->
+  forall b1 b2 i1 i2 x, In b1 t -> In b2 t -> nth_error (etxs b1) i1 = Some x -> nth_error (etxs b2) i2 = Some x ->
+  b1 = b2 /\ i1 = i2.
+Proof.
+  induction t as [|z r IH]; cbn [flat_map]; intros Hnd b1 b2 i1 i2 x H1 H2 Hn1 Hn2; [destruct H1|].
+  assert (Hl : NoDup (etxs z)) by (eapply nodup_app_left; exact Hnd).
+  assert (Hr : NoDup (flat_map etxs r)) by (eapply nodup_app_right; exact Hnd).
+  assert (Hdisj : forall y b, In b r -> In y (etxs z) -> In y (etxs b) -> False).
+  { intros y b Hb Hyz Hyb. clear -Hnd Hb Hyz Hyb. induction (etxs z) as [|w l IHl]; [destruct Hyz|].
+    cbn [app] in Hnd. inversion Hnd as [|a l' Hni Hnd']; subst. destruct Hyz as [->|Hyz].
+    - apply Hni. apply in_or_app. right. apply in_flat_map. exists b. auto.
+    - apply IHl; assumption. }
+  destruct H1 as [<-|H1], H2 as [<-|H2].
+  - split; [reflexivity|]. apply (proj1 (NoDup_nth_error (etxs z)) Hl); [|congruence].
+    apply nth_error_Some. congruence.
+  - exfalso. eapply Hdisj; eauto using nth_error_In.
+  - exfalso. eapply Hdisj; eauto using nth_error_In.
+  - eapply IH; eauto.
+Qed.
+
+Lemma table_wfb_spec t : table_wfb t = true -> chain_wf t.
+Proof.
+  unfold table_wfb. rewrite !andb_true_iff. intros [[[H1 H2] H3] H4].
+  apply nodupNb_spec in H1, H2, H3. rewrite forallb_forall in H4. constructor.
+  - intros b1 b2 Hb1 Hb2. apply (NoDup_map_inj eh t); assumption.
+  - intros b1 b2 Hb1 Hb2. apply (NoDup_map_inj eid t); assumption.
+  - intros b1 b2 i1 i2 x Hb1 Hb2. apply (flat_nodup_tx t); assumption.
+  - intros b Hb. apply PeanoNat.Nat.eqb_eq. apply H4. exact Hb.
+Qed.
